@@ -11,7 +11,9 @@ all_subtiles or the task intersects them, CONTAINS/INTERSECTS/NONE are distinct 
 falsy, the walk starts from the coverage extent in the grid SRS, sub boxes are limited by the
 component-wise intersection (C11.d).
 Added in round 4: the coverage keeps its holes when it is transformed (C11.j, shared C17.i); the
-progress key of a seed task names its levels (C11.k)."""
+progress key of a seed task names its levels (C11.k).
+Added in round 5: MultiCoverage only hands the rectangle on (C11.l); rescaling caches are seeded
+tile by tile (C11.m)."""
 import ast
 
 from ..engine import rule
